@@ -17,7 +17,7 @@ from __future__ import annotations
 import ast
 from typing import Callable, Dict, List, Optional, Tuple
 
-from .loader import ClassInfo, FuncInfo, Program, dotted, norm
+from .loader import ClassInfo, FuncInfo, Program, clear_norm_cache, dotted, norm
 from .resolve import Resolver, Target
 
 
@@ -79,7 +79,7 @@ class PathLimit(Exception):
 
 # ------------------------------------------------------------------------- events
 class Event:
-    __slots__ = ("kind", "node", "target", "frame", "extra", "binds")
+    __slots__ = ("kind", "node", "target", "frame", "extra", "binds", "defs")
 
     def __init__(self, kind, node, target=None, frame=None, extra=None):
         self.kind = kind  # 'call' | 'assign' | 'return' | 'raise' | 'test' | 'enter' | 'exit'
@@ -88,6 +88,7 @@ class Event:
         self.frame = frame  # (FuncInfo, concrete ClassInfo)
         self.extra = extra
         self.binds = None
+        self.defs = None
 
     @property
     def name(self) -> str:
@@ -110,9 +111,10 @@ class Event:
 
 
 class State:
-    __slots__ = ("env", "facts", "events", "exc", "depth", "stack")
+    __slots__ = ("env", "facts", "events", "exc", "depth", "stack", "defs")
 
-    def __init__(self, env=None, facts=None, events=(), exc=None, depth=0, stack=()):
+    def __init__(self, env=None, facts=None, events=(), exc=None, depth=0, stack=(), defs=None):
+        self.defs: Dict[str, ast.AST] = defs if defs is not None else {}  # local name -> defining expression (flow-sensitive)
         self.env: Dict[str, AVal] = env if env is not None else {}
         self.facts: Dict[str, AVal] = facts if facts is not None else {}
         self.events: Tuple[Event, ...] = events
@@ -121,7 +123,7 @@ class State:
         self.stack = stack  # tuple of FuncInfo being inlined
 
     def copy(self) -> "State":
-        return State(dict(self.env), dict(self.facts), self.events, self.exc, self.depth, self.stack)
+        return State(dict(self.env), dict(self.facts), self.events, self.exc, self.depth, self.stack, dict(self.defs))
 
     def add(self, ev: Event) -> None:
         self.events = self.events + (ev,)
@@ -231,6 +233,7 @@ class Walker:
         expr_value: Callable[[ast.AST, "State"], Optional[AVal]] = None,
         fork_returns: bool = False,
         symbols: Dict[str, str] = None,
+        merge_loops: bool = False,
         max_paths: int = 400000,
         max_depth: int = 4,
         unroll: int = 2,
@@ -243,6 +246,7 @@ class Walker:
         self.call_value = call_value
         self.expr_value = expr_value
         self.fork_returns = fork_returns
+        self.merge_loops = merge_loops
         self.symbols = symbols or {}
         self.max_paths = max_paths
         self.max_depth = max_depth
@@ -369,21 +373,48 @@ class Walker:
             if k == key or _mentions(k, key):
                 del st.facts[k]
 
-    def _bind(self, st: State, target, val: AVal, node=None):
+    def _bind(self, st: State, target, val: AVal, node=None, defexpr=None):
         if isinstance(target, ast.Name):
             self._kill(st, target)
             st.env[target.id] = val
+            if defexpr is None and isinstance(node, (ast.Assign, ast.AnnAssign, ast.NamedExpr)) and getattr(node, "value", None) is not None:
+                defexpr = node.value
+            if defexpr is not None and not any(isinstance(n, ast.Name) and n.id == target.id for n in ast.walk(defexpr)):
+                st.defs[target.id] = defexpr
+            elif defexpr is not None and target.id in st.defs:
+                # x = f(x): substitute the previous definition
+                import copy
+
+                old = st.defs[target.id]
+
+                class _Sub(ast.NodeTransformer):
+                    def visit_Name(self, n):
+                        if n.id == target.id and isinstance(n.ctx, ast.Load):
+                            return copy.deepcopy(old)
+                        return n
+
+                new = _Sub().visit(copy.deepcopy(defexpr))
+                if sum(1 for _ in ast.walk(new)) < 200:
+                    st.defs[target.id] = clear_norm_cache(ast.fix_missing_locations(new))
+                else:
+                    st.defs.pop(target.id, None)
+            else:
+                st.defs.pop(target.id, None)
             st.add(Event("assign", node or target, target.id, self.frame, val))
         elif isinstance(target, (ast.Attribute, ast.Subscript)):
             self._kill(st, target)
             st.facts[norm(target)] = val
             st.add(Event("assign", node or target, norm(target), self.frame, val))
         elif isinstance(target, (ast.Tuple, ast.List)):
+            src = defexpr
+            if src is None and isinstance(node, ast.Assign):
+                src = node.value
             for i, e in enumerate(target.elts):
                 sub = UNK
                 if val.kind == "const" and isinstance(val.value, (tuple, list)) and len(val.value) == len(target.elts):
                     sub = Const(val.value[i])
-                self._bind(st, e.value if isinstance(e, ast.Starred) else e, sub, node)
+                de = ast.Subscript(value=src, slice=ast.Constant(value=i), ctx=ast.Load()) if src is not None else None
+                self._bind(st, e.value if isinstance(e, ast.Starred) else e, sub, node, defexpr=de)
 
     def s_Assign(self, stmt, st):
         def cont(v, s):
@@ -432,7 +463,13 @@ class Walker:
             return [("raise", st.exc or "Exception", st)]
         name = None
         e = stmt.exc
-        if isinstance(e, ast.Call):
+        if isinstance(e, ast.Name) and e.id in st.defs:
+            d = st.defs[e.id]
+            if isinstance(d, ast.Call):
+                name = dotted(d.func)
+        if name is not None:
+            pass
+        elif isinstance(e, ast.Call):
             name = dotted(e.func)
         else:
             name = dotted(e)
@@ -456,10 +493,14 @@ class Walker:
             _, v, s = r
             t = truth(v)
             if t is True:
-                s.add(Event("test", stmt.test, None, self.frame, True))
+                ev = Event("test", stmt.test, None, self.frame, True)
+                ev.defs = dict(s.defs)
+                s.add(ev)
                 out.extend(self.exec_block(stmt.body, s))
             elif t is False:
-                s.add(Event("test", stmt.test, None, self.frame, False))
+                ev = Event("test", stmt.test, None, self.frame, False)
+                ev.defs = dict(s.defs)
+                s.add(ev)
                 out.extend(self.exec_block(stmt.orelse, s))
             else:
                 s1, s2 = s, s.copy()
@@ -478,13 +519,24 @@ class Walker:
             self._kill(st, node)
             if isinstance(node, ast.Name):
                 st.env[node.id] = UNK
+                st.defs.pop(node.id, None)
 
     def _loop(self, st: State, body, orelse, test_fn, bind_fn):
         """Generic loop: test_fn(state)-> list of (enter: Optional[bool], state)."""
         out = []
         pending = [(st, 0)]
+        entry = st.copy() if self.merge_loops else None
+        merged_done = set()
         while pending:
             s, it = pending.pop()
+            if self.merge_loops and it >= 1:
+                # all states continuing into iteration `it` are represented by one: the loop
+                # entry state with every loop-assigned name forgotten (fewer facts = sound
+                # for guard analyses; events of earlier iterations are dropped)
+                if it in merged_done:
+                    continue
+                merged_done.add(it)
+                s = entry.copy()
             if it >= 1:
                 # later iterations: forget loop-assigned names (sound for any iteration)
                 self._havoc(s, body)
@@ -570,7 +622,8 @@ class Walker:
                 return [(None, s)]
 
             def bind_fn(s, it):
-                self._bind(s, stmt.target, UNK, stmt)
+                self._bind(s, stmt.target, UNK, stmt,
+                           defexpr=ast.Subscript(value=stmt.iter, slice=ast.Constant(value="*"), ctx=ast.Load()))
 
             out.extend(self._loop(s0, stmt.body, stmt.orelse, test_fn, bind_fn))
         return out
@@ -590,7 +643,7 @@ class Walker:
                     s2 = r[2]
                     s2.add(Event("enter", item.context_expr, None, self.frame))
                     if item.optional_vars is not None:
-                        self._bind(s2, item.optional_vars, TRUTHY if False else UNK, stmt)
+                        self._bind(s2, item.optional_vars, UNK, stmt, defexpr=item.context_expr)
                     nxt.append(s2)
             cur = nxt
         for s in cur:
@@ -651,6 +704,22 @@ class Walker:
             elif isinstance(expr.op, ast.Or) and not val:
                 for e in expr.values:
                     self.assume(st, e, False)
+            else:
+                # `A or B or C` is true and all but one operand are known false (or the dual)
+                want = isinstance(expr.op, ast.Or)
+                open_ops = []
+                for e in expr.values:
+                    cur = self._lookup(e, st)
+                    t = truth(cur) if cur is not None else None
+                    if t is None and isinstance(e, ast.Constant):
+                        t = bool(e.value)
+                    if t is want:
+                        open_ops = None
+                        break
+                    if t is None:
+                        open_ops.append(e)
+                if open_ops is not None and len(open_ops) == 1:
+                    self.assume(st, open_ops[0], want)
             st.facts[norm(expr)] = TRUTHY if val else FALSY
             return
         if isinstance(expr, ast.NamedExpr):
@@ -680,6 +749,7 @@ class Walker:
                 binds[n.id] = st.env[n.id]
         ev = Event("test", expr, "assumed", self.frame, val)
         ev.binds = binds
+        ev.defs = dict(st.defs)
         st.add(ev)
 
     def _setfact(self, st: State, expr, val: AVal):
@@ -1110,7 +1180,7 @@ class Walker:
             callee_concrete = callee.cls
             facts = {k: v for k, v in s.facts.items() if not k.startswith("self.") and "self." not in k}
         inner = State(env=env, facts=dict(facts), events=s.events, exc=None, depth=s.depth + 1,
-                      stack=s.stack + (callee,))
+                      stack=s.stack + (callee,), defs={})
         saved_frame = self.frame
         self.frame = (callee, callee_concrete)
         try:
@@ -1119,7 +1189,8 @@ class Walker:
             self.frame = saved_frame
         results = []
         for k, v, si in outs:
-            back = State(env=dict(s.env), facts=None, events=si.events, exc=s.exc, depth=s.depth, stack=s.stack)
+            back = State(env=dict(s.env), facts=None, events=si.events, exc=s.exc, depth=s.depth, stack=s.stack,
+                         defs=dict(s.defs))
             if is_self:
                 back.facts = si.facts
             else:
